@@ -115,7 +115,8 @@ def clause_lookup_rules(res, fx, rule):
         raise AnalysisBroken('%s: fewer than two DoDirectChildLookup call sites found' % rule)
     is_unesc = lambda x: x.is_call() and (x.get('q') or '').endswith('RemoveEscapeChars')
     kd = g.params[2]['d'] if len(g.params) > 2 else None
-    callee = 1 if any(is_unesc(x) and x.args() and A.strip_casts(x.args()[0]).get('d') == kd for c in P.calls(g, r'^muscle::DataNode::GetChild$') for x in (c.args()[0].walk() if c.args() else [])) else 0
+    callee = 1 if any(is_unesc(x) and x.args() and A.strip_casts(x.args()[0]).get('d') == kd for c in P.calls(g, r'^muscle::DataNode::GetChild$')
+                      for x in (list(c.args()[0].walk()) + list(G.local_init(g, c.args()[0]).walk()) if c.args() else [])) else 0
     for (g_, c) in sites:
         if len(c.args()) < 3:
             continue
@@ -451,9 +452,8 @@ def run(res, tier):
         # the unique successor of fb's `break`... simpler: enumerate paths from vd to every block that is a loop back-edge source, avoiding fb
         ok = True
         npaths = 0
-        for (header, body) in C.natural_loops(f):
-            if P.pos_of(f, vd)[0] not in body:
-                continue
+        # the innermost loop around the matcher (the loop over the entries of one table)
+        for (header, body) in sorted((hb for hb in C.natural_loops(f) if P.pos_of(f, vd)[0] in hb[1]), key=lambda hb: len(hb[1]))[:1]:
             for b in body:
                 if header in [s for s in f.blocks[b].succ if s is not None and s >= 0] and b != P.pos_of(f, vd)[0]:
                     paths, complete = C.paths_between(f, P.pos_of(f, vd), (b, 0), avoid_blocks=avoid_scan)
@@ -467,6 +467,17 @@ def run(res, tier):
                                 uniq = True
                             if n.is_call() and (n.get('q') or '').endswith('::IsPatternListOfUniqueValues') and pol:
                                 uniq = True
+                            # `!(unique || list-of-unique)` found false: a disjunction all of whose disjuncts are such classifications holds
+                            if n['k'] == 'BinaryOperator' and n.get('op') == '||' and pol:
+                                leaves, st_ = [], [n]
+                                while st_:
+                                    y_ = A.strip_casts(st_.pop())
+                                    if y_['k'] == 'BinaryOperator' and y_.get('op') == '||':
+                                        st_ += [y_['ch'][0], y_['ch'][1]]
+                                    else:
+                                        leaves.append(y_)
+                                if leaves and all(y_.is_call() and re.search(r'::(IsPatternUnique|IsPatternListOfUniqueValues)$', y_.get('q') or '') for y_ in leaves):
+                                    uniq = True
                             # matcher queue absent: nothing to look up
                             if n['k'] == 'DeclRefExpr' and 'StringMatcherQueue' in n.type() and n.type().rstrip().endswith('*') and not pol:
                                 uniq = True
@@ -484,7 +495,8 @@ def run(res, tier):
     ok = False
     for c in P.calls(g, r'^muscle::DataNode::GetChild$'):
         a0 = A.strip_casts(c.args()[0]) if c.args() else None
-        if a0 is not None and any(x.is_call() and (x.get('q') or '').endswith('RemoveEscapeChars') and x.args() and A.strip_casts(x.args()[0]).get('d') == g.params[2]['d'] for x in a0.walk()):
+        if a0 is not None and any(x.is_call() and (x.get('q') or '').endswith('RemoveEscapeChars') and x.args() and A.strip_casts(x.args()[0]).get('d') == g.params[2]['d']
+                                  for x in list(a0.walk()) + list(G.local_init(g, a0).walk())):
             ok = True
     res.ob('UNIQUE-AGREE', g.where(), 'DoDirectChildLookup looks up RemoveEscapeChars(key)', ok, function=g.q, key='UNIQUE-AGREE|%s|unescape' % g.q,
            message='the literal lookup no longer unescapes the pattern: an escaped literal such as `a\\*b` never finds the child named `a*b`')
@@ -527,14 +539,21 @@ def run(res, tier):
         raise AnalysisBroken('UNIQUE-AGREE: no DoDirectChildLookup call with a locally split clause found (comma-list case)')
     clause_lookup_rules(res, fx, 'UNIQUE-AGREE')
     # ---- DEFAULT-ROUTE (b): the default route is REPLACED when its parameters are set again
-    fud = fx.fn1(SRS + '::UpdateDefaultMessageRoute')
-    puts = [c for c in fud.walk() if c['k'] == 'CXXMemberCallExpr' and re.search(r'::(PutPathsFromMessage|PutPathString|PutPathFromString)$', c.get('q') or '') and c.receiver() is not None
-            and A.strip_casts(c.receiver()).get('n') == '_defaultMessageRoute']
-    clrs = [c for c in fud.walk() if c['k'] == 'CXXMemberCallExpr' and (c.get('q') or '').endswith('::Clear') and c.receiver() is not None and A.strip_casts(c.receiver()).get('n') == '_defaultMessageRoute']
-    if not puts:
-        raise AnalysisBroken('DEFAULT-ROUTE: UpdateDefaultMessageRoute: the refill of _defaultMessageRoute was not found')
-    okr = bool(clrs) and all(P.must_precede(fud, clrs, c) for c in puts)
-    res.ob('DEFAULT-ROUTE', fud.where(puts[0]), 'UpdateDefaultMessageRoute clears the old route on every path before it reads the new patterns', okr, function=fud.q, key='DEFAULT-ROUTE|%s|replace' % fud.q,
+    # (wherever the refill sits: in UpdateDefaultMessageRoute, or inlined at its call sites)
+    n_rf, okr, fud, puts = 0, True, None, []
+    for g_ in sorted((g_ for g_ in fx.funcs.values() if g_.full and g_.q.startswith(SRS + '::')), key=lambda g_: g_.line):
+        puts_g = [c for c in g_.walk() if c['k'] == 'CXXMemberCallExpr' and re.search(r'::(PutPathsFromMessage|PutPathString|PutPathFromString)$', c.get('q') or '') and c.receiver() is not None
+                  and A.strip_casts(c.receiver()).get('n') == '_defaultMessageRoute']
+        clrs_g = [c for c in g_.walk() if c['k'] == 'CXXMemberCallExpr' and (c.get('q') or '').endswith('::Clear') and c.receiver() is not None and A.strip_casts(c.receiver()).get('n') == '_defaultMessageRoute']
+        for c in puts_g:
+            n_rf += 1
+            if not (clrs_g and P.must_precede(g_, clrs_g, c)):
+                okr = False
+            if fud is None or not okr:
+                fud, puts = g_, [c]
+    if n_rf < 1:
+        raise AnalysisBroken('DEFAULT-ROUTE: the refill of _defaultMessageRoute was not found')
+    res.ob('DEFAULT-ROUTE', fud.where(puts[0]), 'the default route is cleared on every path before it is refilled from the parameters', okr, function=fud.q, key='DEFAULT-ROUTE|%s::UpdateDefaultMessageRoute|replace' % SRS,
            message='UpdateDefaultMessageRoute() can add the new patterns to _defaultMessageRoute without having cleared it: setting PR_NAME_KEYS again ADDS to the old default route, so Messages without '
                    'keys are routed by the union of every route the client has set — sessions the current route does not select receive them, while GETPARAMETERS shows only the newest pattern')
     # ---- ONCE (b): the de-duplication table of the direct-lookup traversal spans all patterns of the Message
